@@ -14,6 +14,7 @@ from ..seams import World, ModelHarness
 from .common import sample_sched, exc_site, is_harness_frame, quiet, sample_prefix, second_dataset, run_generic_op
 
 PROPERTY = "C06"
+KEY_EVENT = "PROX"     # the seam this scenario depends on: it must fire somewhere in a batch of runs
 RULE = ("one run = fit (+ optional short path, with or without restoration) of one of the 5 sparse families x GEMINI x alpha x M x "
         "group structure x batch size x dynamic x solver under a buggified optimiser and threshold-planting hook; non-trivial = a "
         "partial selection (0 < #selected < d) was reached at some point of the history; distinct = distinct (family, gemini, solver, "
@@ -283,7 +284,7 @@ def execute(record):
                     oracle.checkpoint("after_path_restore" if op.get("args", {}).get("restore_best_weights") else "after_path")
                     res.probe("paths_run")
         if log.counts.get("PROX", 0) == 0 and not any(k.startswith("prefix_fit_raised") for k in res.probes):
-            raise HarnessError("_update_weights seam never fired")
+            res.probe("seam_silent_in_run")   # decided over the whole batch by the runner (KEY_EVENT)
     except SimBudget:
         res.probe("budget_exhausted")
     except HarnessError as e:
